@@ -9,6 +9,7 @@ import (
 	"fmt"
 	"hash"
 	"io"
+	"math"
 	"net"
 	"strconv"
 	"strings"
@@ -368,10 +369,19 @@ func readMessage(r io.Reader, header *wire.MessageHeader, msg wire.Message) erro
 		rc = r
 	}
 
-	// Read payload.
-	payload := make([]byte, header.Length)
-	if _, err := io.ReadFull(rc, payload); err != nil {
+	// Read payload. The declared length comes from the peer and can be up to 2^64-1 for extended
+	// messages, so the buffer grows as data is actually received instead of being allocated up
+	// front.
+	if header.Length > math.MaxInt64 {
+		return errors.Wrap(ErrMessageTooLarge, fmt.Sprintf("%s: %d b", header.CommandString(),
+			header.Length))
+	}
+	payload, err := io.ReadAll(io.LimitReader(rc, int64(header.Length)))
+	if err != nil {
 		return errors.Wrap(err, "read")
+	}
+	if uint64(len(payload)) != header.Length {
+		return errors.Wrap(io.ErrUnexpectedEOF, "read")
 	}
 
 	// Extended messages don't use a checksum.
